@@ -603,15 +603,64 @@ def oracle_failed_saves(ck, tier):
         "basex": (basex.cache_cleanup, [lambda d, k=k: basex.basex_transform(half, sigma=k[0], reg=k[1], direction=k[2], basis_dir=d, verbose=False)
                                         for k in [(1.0, 0.0, "inverse"), (2.0, 0.0, "inverse"), (1.0, 3.0, "inverse"), (1.0, 0.0, "forward")]]),
         "linbasex": (linbasex.cache_cleanup, [lambda d, k=k: linbasex.linbasex_transform_full(full, proj_angles=k[0], legendre_orders=k[1], basis_dir=d)[1]
-                                              for k in [([0, np.pi / 2], [0, 2]), ([0, np.pi / 4, np.pi / 2], [0, 2]), ([0, np.pi / 2], [0, 2, 4])]]),
+                                              for k in [([0, np.pi / 2], [0, 2]), ([0, np.pi / 4, np.pi / 2], [0, 2]), ([0, np.pi / 2], [0, 2, 4]),
+                                                        ([0, np.pi / 2], [0, 4]), ([0, np.pi / 3], [0, 2])]]),      # (bases of one shape: the memory cache can mix them up)
         "rbasex": (rbasex.cache_cleanup, [lambda d, k=k: rbasex.rbasex_transform(full, order=k[0], direction=k[1], reg=k[2], basis_dir=d)[0]
                                           for k in [(2, "inverse", None), (4, "inverse", None), (2, "forward", None), (2, "inverse", ("L2", 1.0))]]),
     }
+    import contextlib
+
+    @contextlib.contextmanager
+    def interrupted_save(after):
+        """numpy.save fails after `after` bytes have reached the file (disk full, signal): the process goes on"""
+        real = np.save
+
+        def broken(file, arr, *a, **k):
+            import io as _io
+            buf = _io.BytesIO()
+            real(buf, arr, *a, **k)
+            data = buf.getvalue()[:after]
+            if hasattr(file, "write"):
+                file.write(data)
+            else:
+                with open(file if str(file).endswith(".npy") else str(file) + ".npy", "wb") as fh:
+                    fh.write(data)
+            raise OSError("No space left on device (simulated)")
+        np.save = broken
+        try:
+            yield
+        finally:
+            np.save = real
+    scratch = os.environ.get("VERIF_SCRATCH")
     for name, (cleanup, calls) in families.items():
         refs = []
         for c in calls:
             cleanup()
             refs.append(np.array(quiet(c, None), float))
+        # … the save interrupted part-way (a writable directory this time)
+        for a, b in [(a, b) for a in range(len(calls)) for b in range(len(calls)) if a != b][:: 2 if tier == "quick" else 1]:
+            for after in (0, 17, 300):
+                ck.count(("S.interrupted-save", name, a, b, after), suite="S.failed-saves")
+                d = tempfile.mkdtemp(prefix="intr_", dir=scratch)
+                cleanup()
+                try:
+                    quiet(calls[a], None)
+                    with interrupted_save(after):
+                        try:
+                            quiet(calls[b], d)
+                        except Exception:
+                            pass
+                    again = np.array(quiet(calls[a], None), float)
+                    third = np.array(quiet(calls[b], None), float)
+                except Exception as e:
+                    ck.violation(dict(site=name, clause="failed-save-history-exception"), dict(module=name, call=a, failing=b, after=after), f"{type(e).__name__}: {e}")
+                    continue
+                for lab, got, want in (("the earlier call repeated", again, refs[a]), ("the interrupted call repeated without a directory", third, refs[b])):
+                    if got.shape != want.shape or np.abs(got - want).max() > 1e-9 * max(1.0, float(np.abs(want).max())):
+                        ck.violation(dict(site=name, clause="interrupted-save-history"), dict(module=name, call=a, failing=b, after=after, which=lab),
+                                     f"{name}: call #{a}, then call #{b} whose basis save is interrupted after {after} bytes, then {lab}: differs from the fresh-process value by "
+                                     f"{np.abs(got - want).max() if got.shape == want.shape else 'shape'}")
+                        break
         pairs = [(a, b) for a in range(len(calls)) for b in range(len(calls)) if a != b]
         for a, b in pairs:
             ck.count(("S.failed-save", name, a, b), suite="S.failed-saves")
